@@ -14,6 +14,11 @@ add("C20", "runtime monitor: reference quantiser + independent wire parser on pa
     "Trusts the reference quantiser/codec in vf/ref (self-checked against worked values) and the harness' virtual clock; does not cover secured envelopes' lifetime (basic header is outside the signed part and identical).",
     "DESIGN.md 3/C20")
 
+add("C02", "differential runtime monitor: real header codecs and packets emitted by the real router vs an independent reference codec",
+    "Exploration: every header codec of the repository is run in both directions against an independent struct-based codec over per-field sweeps (quick: stride 13 of every <=16-bit field + boundaries; thorough: every value) and boundary-biased samples of the 32/48-bit fields; every packet kind the router can originate or forward is emitted by a real GN+BTP router on a simulated ether (both hemispheres, all TCs, both mobility settings, SN incl. wrap) and compared octet for octet with the packet built by the reference encoder from request, MIB and ego position vector.",
+    "Trusts vf/ref/wire.py as the transcription of EN 302 636-4-1 cl. 9 / EN 302 636-5-1 cl. 7; lifetime code point is compared by value (C20 decides the quantiser); secured envelopes are decoded in C05, not here.",
+    "DESIGN.md 3/C02")
+
 NOT_YET = "check not built yet (work in progress; runtime monitor planned in DESIGN.md section 3)"
 
 def main():
